@@ -56,6 +56,10 @@ Proof. exact generated_deps. Qed.
 Theorem c07_plain_structures_unchanged_authdata : plain_hold raw_decls plain_authdata = true.
 Proof. exact generated_plain_authdata. Qed.
 
+(* the cargo features are independent switches with nothing on by default: a feature set of the model means exactly its cfgs *)
+Theorem c07_feature_table_unchanged : features_hold cargo_features = true.
+Proof. exact generated_features. Qed.
+
 Eval vm_compute in "ASSUMPTIONS c07_layout". Print Assumptions c07_layout.
 Eval vm_compute in "ASSUMPTIONS c07_counter_be". Print Assumptions c07_counter_be.
 Eval vm_compute in "ASSUMPTIONS c07_idlen_be". Print Assumptions c07_idlen_be.
@@ -65,3 +69,4 @@ Eval vm_compute in "ASSUMPTIONS c07_generated_conforms". Print Assumptions c07_g
 Eval vm_compute in "ASSUMPTIONS c07_modelled_functions_unchanged_authdata". Print Assumptions c07_modelled_functions_unchanged_authdata.
 Eval vm_compute in "ASSUMPTIONS c07_modelled_dependencies_pinned". Print Assumptions c07_modelled_dependencies_pinned.
 Eval vm_compute in "ASSUMPTIONS c07_plain_structures_unchanged_authdata". Print Assumptions c07_plain_structures_unchanged_authdata.
+Eval vm_compute in "ASSUMPTIONS c07_feature_table_unchanged". Print Assumptions c07_feature_table_unchanged.
